@@ -309,12 +309,20 @@ pub fn main(args: &[String]) -> i32 {
             0..=3 => {
                 let with_ttl = op == 3;
                 ev = call_event("insert", k);
-                let r = if with_ttl {
-                    store.insert_with_ttl_and_timestamp(&key, &val, ttl, ts_choice)
-                } else if op == 2 {
-                    store.insert_bytes_with_timestamp(&key, bytes::Bytes::from(val.clone()), ts_choice)
-                } else {
-                    store.insert_with_timestamp(&key, &val, ts_choice)
+                // every public variant of the call: slice / Bytes payload, with and without the explicit
+                // timestamp parameter (the short forms are the automatic-timestamp calls)
+                let short = ts_choice.is_none() && rng.random_bool(0.5);
+                let as_bytes = if with_ttl { rng.random_bool(0.5) } else { op == 2 };
+                let b = || bytes::Bytes::from(val.clone());
+                let r = match (with_ttl, as_bytes, short) {
+                    (true, false, false) => store.insert_with_ttl_and_timestamp(&key, &val, ttl, ts_choice),
+                    (true, false, true) => store.insert_with_ttl(&key, &val, ttl),
+                    (true, true, false) => store.insert_bytes_with_ttl_and_timestamp(&key, b(), ttl, ts_choice),
+                    (true, true, true) => store.insert_bytes_with_ttl(&key, b(), ttl),
+                    (false, true, false) => store.insert_bytes_with_timestamp(&key, b(), ts_choice),
+                    (false, true, true) => store.insert_bytes(&key, b()),
+                    (false, false, false) => store.insert_with_timestamp(&key, &val, ts_choice),
+                    (false, false, true) => store.insert(&key, &val),
                 };
                 ev["v"] = cx.vals.val(&val);
                 ev["ttl"] = json!(limbs(if with_ttl { ttl } else { 0 }));
@@ -328,7 +336,7 @@ pub fn main(args: &[String]) -> i32 {
             }
             6 | 7 => {
                 ev = call_event("delete", k);
-                let r = store.delete_with_timestamp(&key, ts_choice);
+                let r = if ts_choice.is_none() && rng.random_bool(0.5) { store.delete(&key) } else { store.delete_with_timestamp(&key, ts_choice) };
                 ev["res"] = match &r { Ok(()) => res("unit", 0, noval(), 0), Err(e) => res_err(e) };
             }
             8 | 9 => {
@@ -338,7 +346,12 @@ pub fn main(args: &[String]) -> i32 {
                 } else {
                     b"nope".to_vec()
                 };
-                let r = store.compare_and_swap_with_timestamp_and_ttl(&key, &expected, &val, ts_choice, ttl);
+                let r = match (ts_choice.is_none() && rng.random_bool(0.5), ttl == 0 && rng.random_bool(0.5)) {
+                    (true, true) => store.compare_and_swap(&key, &expected, &val),
+                    (true, false) if ttl > 0 => store.compare_and_swap_with_ttl(&key, &expected, &val, ttl),
+                    (false, true) => store.compare_and_swap_with_timestamp(&key, &expected, &val, ts_choice),
+                    _ => store.compare_and_swap_with_timestamp_and_ttl(&key, &expected, &val, ts_choice, ttl),
+                };
                 ev["x"] = cx.vals.val(&expected);
                 ev["v"] = cx.vals.val(&val);
                 ev["ttl"] = json!(limbs(ttl));
@@ -347,7 +360,12 @@ pub fn main(args: &[String]) -> i32 {
             10 | 11 => {
                 ev = call_event("incr", k);
                 let d = rng.random_range(-3i64..10);
-                let r = store.atomic_increment_with_timestamp_and_ttl(&key, d, ts_choice, ttl);
+                let r = match (ts_choice.is_none() && rng.random_bool(0.5), ttl == 0 && rng.random_bool(0.5)) {
+                    (true, true) => store.atomic_increment(&key, d),
+                    (true, false) if ttl > 0 => store.atomic_increment_with_ttl(&key, d, ttl),
+                    (false, true) => store.atomic_increment_with_timestamp(&key, d, ts_choice),
+                    _ => store.atomic_increment_with_timestamp_and_ttl(&key, d, ts_choice, ttl),
+                };
                 ev["d"] = json!(d);
                 ev["ttl"] = json!(limbs(ttl));
                 ev["res"] = match &r { Ok(n) => res("num", *n, noval(), 0), Err(e) => res_err(e) };
@@ -367,7 +385,7 @@ pub fn main(args: &[String]) -> i32 {
                 } else {
                     (-1, format!("[{{\"op\":\"replace\",\"path\":\"/n\",\"value\":{set}}}]"))
                 };
-                let r = store.json_patch_with_timestamp(&key, patch.as_bytes(), ts_choice);
+                let r = if ts_choice.is_none() && rng.random_bool(0.5) { store.json_patch(&key, patch.as_bytes()) } else { store.json_patch_with_timestamp(&key, patch.as_bytes(), ts_choice) };
                 ev["pt"] = json!(pt);
                 ev["ps"] = json!(set);
                 ev["res"] = match &r { Ok(()) => res("unit", 0, noval(), 0), Err(e) => res_err(e) };
